@@ -41,6 +41,8 @@ def describe(e):
         return "%s (%s, debug=%s, headers %s): before %s after %s" % (e["what"], e["m"], e["dbg"], json.dumps(e["req"])[:150], json.dumps(e["before"])[:200], json.dumps(e["after"])[:200])
     if e.get("ev") == "Hang":
         return "%s (%s, debug=%s, headers %s)" % (e["what"], e["m"], e["dbg"], json.dumps(e["req"])[:200])
+    if e.get("buffered"):
+        return "behind a BUFFERING writer (one that sends the header map as it is when the handler chain has returned, like http.TimeoutHandler): " + describe({k: v for k, v in e.items() if k != "buffered"})
     lay = {1: "behind a layer that had set ACAO to the request's own Origin slice: EMITTED by the middleware:",
            2: "behind an outer allow-all middleware of this library: EMITTED by the inner one:"}.get(e.get("layer"), "")
     if lay:
